@@ -723,3 +723,41 @@ def r06h(R):
                     % (norm(c.left), ', '.join(
                         t.short for _d, call in calls
                         for t in A.callees(f, call))))
+
+
+@rule('R06.i', ('C06', 'C03'), 'routine parameters are declared inside the '
+      'routine\'s scope', floor=1,
+      decides='a parameter name is unknown again once its routine has ended: '
+              'using it afterwards without defining it is rejected, as any '
+              'undefined name is')
+def r06i(R):
+    A = R.A
+    rd = A.func(PARSE, 'Parser._routine_definition')
+    cfg = A.cfg(rd)
+    addv = A.func('bardolph.parser.context', 'Context.add_variable')
+    enter = A.calls_nodes(rd, 'Context.enter_routine')
+    leave = A.calls_nodes(rd, 'Context.exit_routine')
+    # direct callees of the definition routine that declare variables without
+    # running statements (the parameter list), i.e. reach add_variable but
+    # not the statement dispatcher
+    decl = []
+    for n in cfg.nodes:
+        for c in n.calls():
+            for t in A.callees(rd, c):
+                reach = A.rs.reachable([t])
+                if addv in reach and not any(
+                        g.short == 'Parser._command' for g in reach):
+                    decl.append(n)
+    if not decl or not enter or not leave:
+        raise AnalysisError('R06.i: parameter declaration / enter_routine / '
+                            'exit_routine not found in _routine_definition')
+    p = cfg.find_path([cfg.entry], lambda n: n in decl, avoid=enter)
+    q = cfg.find_path([m for n in leave for m, _l in n.succs], lambda n: n in decl)
+    R.check(rd, 'enter_routine() < parameter declarations < exit_routine()',
+            p is None and q is None,
+            'the parameters are added to the symbol table while the context '
+            'is not (yet / any more) inside the routine: add_variable files '
+            'them as globals, exit_routine does not remove them, and a later '
+            'use of the name outside the routine compiles instead of being '
+            'rejected as unknown',
+            path=path_text(p or q) if (p or q) else None)
